@@ -239,7 +239,7 @@ def eval_adverb_over(f, a, op, backend):
             return np_backend.subtract.reduce(a)
         elif safe_eq(op.a, '*') and hasattr(np_backend.multiply,'reduce'):
             return np_backend.multiply.reduce(a)
-        elif safe_eq(op.a, '%') and hasattr(np_backend.divide,'reduce'):
+        elif safe_eq(op.a, '%') and hasattr(np_backend.divide,'reduce') and a.dtype != 'O' and not (a[1:] == 0).any():
             return np_backend.divide.reduce(a)
         elif safe_eq(op.a, '&') and a.ndim == 1 and a.dtype != 'O':
             return np_backend.min(a)
@@ -332,7 +332,7 @@ def eval_adverb_scan_over(f, a, op, backend):
             return np_backend.subtract.accumulate(a)
         elif safe_eq(op.a, '*') and hasattr(np_backend.multiply, 'accumulate'):
             return np_backend.multiply.accumulate(a)
-        elif safe_eq(op.a, '%') and hasattr(np_backend.divide, 'accumulate'):
+        elif safe_eq(op.a, '%') and hasattr(np_backend.divide, 'accumulate') and a.dtype != 'O' and not (a[1:] == 0).any():
             return np_backend.divide.accumulate(a)
     r = list(itertools.accumulate(a, f))
     return backend.kg_asarray(r)
